@@ -36,7 +36,8 @@ class Pools:
             vid = add("viol", name, c2, f"viol:{seed}:{i}:{op}")
             if op in workload.COUNT_PRESERVING and nst0 is not None:
                 self.meta[vid]["nstmts"] = nst0
-            if op.rstrip("0123456789") in ("commentrun_brace", "comment_run", "long_preamble", "comment_in_func_late", "upper_decl", "trailing_space"):
+            if op.rstrip("0123456789") in ("commentrun_brace", "comment_run", "long_preamble", "comment_in_func_late", "upper_decl", "trailing_space",
+                                           "label_body", "label_line", "label_last", "control_last"):
                 self.meta[vid]["braces_known"] = True     # validated: these edits leave the brace structure what the generator emitted
             if op.startswith("comment_run") and nst0 is not None:
                 self.meta[vid]["nstmts"] = nst0 + int(op[len("comment_run"):])      # each filler line is one more statement
